@@ -1,3 +1,4 @@
+pub mod dual;
 pub mod graph;
 pub mod op;
 pub mod sites;
